@@ -187,10 +187,20 @@ class ExprMixin:
         for s, ks in self.ev_many(n.keys, st):
             for s2, vs in self.ev_many(n.values, s):
                 # python-level dict of Vals (keys must be concrete)
-                if all(k.is_py or z3.is_string_value(k.t) or k.ty.kind == "enum" for k in ks):
+                if all(k.is_py or z3.is_string_value(k.t) for k in ks):
                     outs.append((s2, py({self._pykey(k): v for k, v in zip(ks, vs)})))
                 else:
-                    raise Unsupported("dict literal with symbolic keys")
+                    # symbolic keys: a first-class dict value
+                    kk = [k if not k.is_py else self.lift(k.t) for k in ks]
+                    vv = [v if not v.is_py else self.lift(v.t) for v in vs]
+                    if any(v.is_py for v in vv):
+                        vv = [self.mk_seq([x if isinstance(x, Val) else self.lift(x) for x in v.t],
+                                          next((x.ty for x in v.t if isinstance(x, Val)), PY)) if v.is_py and isinstance(v.t, list) else v
+                              for v in vv]
+                    d = self.empty_dict(kk[0].ty, vv[0].ty)
+                    for k_, v_ in zip(kk, vv):
+                        d = self.dict_set(d, k_, v_)
+                    outs.append((s2, d))
         return outs
 
     def _pykey(self, k):
@@ -421,6 +431,10 @@ class ExprMixin:
             return [(s, self.set_inter(a, self.coerce(b, a.ty)))]
         if isinstance(op, ast.BitXor) and k == "bool":
             return [(s, Val(BOOL, z3.Xor(a.t, b.t)))]
+        if isinstance(op, ast.Div) and a.ty.kind == "abs":
+            hook = self.binop_models.get(("/", a.ty.name))
+            if hook is not None:
+                return hook(self, s, a, b, node)
         if isinstance(op, ast.Mod) and k == "str":
             raise Unsupported("%-formatting")
         raise Unsupported(f"binop {type(op).__name__} on {a.ty}, {b.ty}")
@@ -515,6 +529,8 @@ class ExprMixin:
 
     def contains(self, container: Val, item: Val):
         k = container.ty.kind
+        if container.meta and container.meta.get("empty"):
+            return z3.BoolVal(False)
         if container.is_py:
             c = container.t
             if isinstance(c, dict) and not item.is_py and item.ty.kind == "str":
@@ -670,11 +686,19 @@ class ExprMixin:
             else:
                 pos = z3.If(i < 0, n + i, i)
             return [(ok, self.seq_nth(base, pos))]
-        if k == "dict":
-            dflt = base.meta.get("default") if base.meta else None
+        if k == "dict" and base.ty.name == "dd":
+            # defaultdict(list): a missing key reads as the empty list and is inserted
+            vty = base.ty.args[1]
+            if vty.kind != "seq":
+                raise Unsupported("defaultdict with a non-list factory")
             has = self.dict_has(base, idx)
-            if dflt is not None:
-                raise Unsupported("defaultdict read through subscript: use lvalue path")
+            val = self.ite(has, self.dict_get(base, idx), Val(vty, z3.Empty(self.reg.sort(vty))))
+            lv = self._lvalue(node.value) if node is not None and hasattr(node, "value") else None
+            if lv is not None and not self.spec_mode:
+                self.store_lvalue(s, lv, self.dict_set(base, idx, val))
+            return [(s, val)]
+        if k == "dict":
+            has = self.dict_has(base, idx)
             ok, bad = self.branch(s, has, "key")
             if bad is not None:
                 self.raise_(bad, KeyError, where=node)
